@@ -78,3 +78,296 @@ fn c11_condition_chain_sequence_bounded() {
     kani::cover!(depth == 3);
     std::mem::forget(chain);
 }
+
+// ================================================================================================================
+// Directive gating (C11): "#define, #undef, #include and #pragma inside unselected branches have no effect", and how
+// each conditional directive moves the chain.  preprocess_command is driven with ONE concrete directive (token shape
+// fixed) on a SYMBOLIC chain of depth <= 2; the heavy callees (macro expansion, condition parsing, macro definition
+// parsing, file loading / inclusion) are replaced by recorders, so what is decided is exactly the gating and routing
+// logic of preprocess_command itself.  BOUNDED: chain depth <= 2, one token shape per directive.
+static mut CALLS_APPLY_MACROS: u32 = 0;
+static mut CALLS_PARSE_CONDITION: u32 = 0;
+static mut CALLS_MACRO_PARSE: u32 = 0;
+static mut CALLS_LOAD: u32 = 0;
+static mut CALLS_INCLUDED: u32 = 0;
+static mut CALLS_PRAGMA_ONCE: u32 = 0;
+static mut CONDITION_VALUE: bool = false;
+
+fn rec_apply_macros(_t: &[PreprocessToken], _m: &[Macro], _d: bool, _s: &mut SourceManager) -> Result<Vec<PreprocessToken>, PreprocessError> {
+    unsafe { CALLS_APPLY_MACROS += 1; }
+    Ok(Vec::new())
+}
+fn rec_parse_condition(_t: &[PreprocessToken], _l: SourceLocation) -> Result<bool, PreprocessError> {
+    unsafe { CALLS_PARSE_CONDITION += 1; Ok(CONDITION_VALUE) }
+}
+fn rec_macro_parse(_c: &[PreprocessToken]) -> Result<Macro, PreprocessError> {
+    unsafe { CALLS_MACRO_PARSE += 1; }
+    Ok(Macro { name: String::new(), is_function: false, num_params: 0, tokens: Vec::new(), location: SourceLocation::UNKNOWN })
+}
+fn rec_load<'a>(_s: &mut FileLoader<'a>, _n: &str, _p: Option<FileId>) -> Result<InputFile, IncludeError> where 'a: 'a {
+    unsafe { CALLS_LOAD += 1; }
+    Err(IncludeError::FileNotFound)
+}
+fn rec_included(_b: &mut Vec<PreprocessToken>, _f: &mut FileLoader, _i: InputFile, _m: &mut Vec<Macro>, _c: &mut ConditionChain) -> Result<(), PreprocessError> {
+    unsafe { CALLS_INCLUDED += 1; }
+    Ok(())
+}
+fn rec_pragma_once<'a>(_s: &mut FileLoader<'a>, _f: FileId) where 'a: 'a {
+    unsafe { CALLS_PRAGMA_ONCE += 1; }
+}
+fn side_effect_calls() -> u32 {
+    unsafe { CALLS_APPLY_MACROS + CALLS_PARSE_CONDITION + CALLS_MACRO_PARSE + CALLS_LOAD + CALLS_INCLUDED + CALLS_PRAGMA_ONCE }
+}
+
+fn tok(t: Token) -> PreprocessToken {
+    PreprocessToken::without_location(t)
+}
+fn id(s: &str) -> PreprocessToken {
+    tok(Token::Id(Identifier(s.to_string())))
+}
+
+/// a symbolic chain of depth <= 2 with its model
+fn any_chain() -> (ConditionChain, [ConditionState; 2], usize) {
+    let depth: usize = kani::any();
+    kani::assume(depth <= 2);
+    let s = [any_state(), any_state()];
+    let mut chain = ConditionChain::new();
+    if depth >= 1 { chain.push(s[0]); }
+    if depth >= 2 { chain.push(s[1]); }
+    (chain, s, depth)
+}
+fn c_active(s: &[ConditionState; 2], depth: usize) -> bool {
+    (depth < 1 || abs(s[0]).now) && (depth < 2 || abs(s[1]).now)
+}
+fn chain_is(chain: &ConditionChain, s: &[ConditionState; 2], depth: usize) -> bool {
+    chain.0.len() == depth && (depth < 1 || chain.0[0] == s[0]) && (depth < 2 || chain.0[1] == s[1])
+}
+
+struct Rig {
+    buffer: &'static mut Vec<PreprocessToken>,
+    loader: &'static mut FileLoader<'static>,
+    macros: &'static mut Vec<Macro>,
+}
+fn rig() -> Rig {
+    let sm: &'static mut SourceManager = Box::leak(Box::new(SourceManager::new()));
+    let ih: &'static mut NullIncludeHandler = Box::leak(Box::new(NullIncludeHandler));
+    Rig {
+        buffer: Box::leak(Box::new(Vec::new())),
+        loader: {
+            // FileLoader::new calls HashMap::new -> RandomState::new (thread-local + Once: not supported by Kani).  Every
+            // method that touches the two maps is replaced by a recorder in these harnesses, so they are left as zero bytes
+            // and never read (a read would be reported by CBMC as a NULL dereference, not pass silently).
+            let fl: &'static mut std::mem::MaybeUninit<FileLoader<'static>> = Box::leak(Box::new(std::mem::MaybeUninit::zeroed()));
+            unsafe {
+                std::ptr::addr_of_mut!((*fl.as_mut_ptr()).source_manager).write(sm);
+                std::ptr::addr_of_mut!((*fl.as_mut_ptr()).include_handler).write(ih);
+                &mut *fl.as_mut_ptr()
+            }
+        },
+        macros: Box::leak(Box::new(Vec::new())),
+    }
+}
+
+macro_rules! gating {
+    ($name:ident, $body:expr) => {
+        #[kani::proof]
+        #[kani::unwind(8)]
+        #[kani::stub(apply_macros, rec_apply_macros)]
+        #[kani::stub(crate::condition_parser::parse, rec_parse_condition)]
+        #[kani::stub(Macro::parse, rec_macro_parse)]
+        #[kani::stub(FileLoader::load, rec_load)]
+        #[kani::stub(preprocess_included_file, rec_included)]
+        #[kani::stub(FileLoader::mark_as_pragma_once, rec_pragma_once)]
+        fn $name() {
+            let f: fn() = $body;
+            f();
+        }
+    };
+}
+
+/// run one directive on a symbolic chain; returns (result, chain after, model before, depth before, rig)
+fn run_directive(command: &'static [PreprocessToken], predefined: Option<&str>) -> (Result<(), PreprocessError>, &'static mut ConditionChain, [ConditionState; 2], usize, Rig) {
+    let (chain, s, depth) = any_chain();
+    let chain = Box::leak(Box::new(chain));
+    let r = rig();
+    if let Some(name) = predefined {
+        r.macros.push(Macro { name: name.to_string(), is_function: false, num_params: 0, tokens: Vec::new(), location: SourceLocation::UNKNOWN });
+    }
+    let res = preprocess_command(r.buffer, r.loader, command, file0(), r.macros, chain);
+    (res, chain, s, depth, r)
+}
+fn cmd3(a: PreprocessToken, b: PreprocessToken, c: PreprocessToken) -> &'static [PreprocessToken] {
+    &Box::leak(Box::new([a, b, c]))[..]
+}
+fn cmd1(a: PreprocessToken) -> &'static [PreprocessToken] {
+    &Box::leak(Box::new([a]))[..]
+}
+fn ws() -> PreprocessToken { tok(Token::Whitespace) }
+
+// #define X: nothing at all inside an unselected group; exactly one definition inside a selected one
+gating!(c11_gating_define_bounded, || {
+    let (res, chain, s, depth, r) = run_directive(cmd3(id("define"), ws(), id("X")), None);
+    assert!(res.is_ok());
+    assert!(chain_is(chain, &s, depth) && r.buffer.is_empty());
+    if c_active(&s, depth) {
+        assert!(r.macros.len() == 1 && unsafe { CALLS_MACRO_PARSE } == 1 && side_effect_calls() == 1);
+    } else {
+        assert!(r.macros.is_empty() && side_effect_calls() == 0);
+    }
+    std::mem::forget(res);
+    kani::cover!(c_active(&s, depth));
+    kani::cover!(!c_active(&s, depth));
+});
+
+// #undef X with X defined: removed only inside a selected group
+gating!(c11_gating_undef_bounded, || {
+    let (res, chain, s, depth, r) = run_directive(cmd3(id("undef"), ws(), id("X")), Some("X"));
+    assert!(res.is_ok());
+    assert!(chain_is(chain, &s, depth) && r.buffer.is_empty() && side_effect_calls() == 0);
+    assert!(r.macros.len() == if c_active(&s, depth) { 0 } else { 1 });
+    std::mem::forget(res);
+    kani::cover!(c_active(&s, depth));
+    kani::cover!(!c_active(&s, depth));
+});
+
+// #include "f": the file is looked up only inside a selected group
+gating!(c11_gating_include_bounded, || {
+    let (res, chain, s, depth, r) = run_directive(cmd3(id("include"), ws(), tok(Token::LiteralString("f".to_string()))), None);
+    assert!(chain_is(chain, &s, depth) && r.buffer.is_empty() && r.macros.is_empty());
+    if c_active(&s, depth) {
+        assert!(matches!(res, Err(PreprocessError::FailedToFindFile(..))));
+        assert!(unsafe { CALLS_LOAD } == 1 && side_effect_calls() == 1);
+    } else {
+        assert!(res.is_ok() && side_effect_calls() == 0);
+    }
+    std::mem::forget(res);
+    kani::cover!(c_active(&s, depth));
+    kani::cover!(!c_active(&s, depth));
+});
+
+// #pragma once: recorded only inside a selected group
+gating!(c11_gating_pragma_bounded, || {
+    let (res, chain, s, depth, r) = run_directive(cmd3(id("pragma"), ws(), id("once")), None);
+    assert!(res.is_ok());
+    assert!(chain_is(chain, &s, depth) && r.buffer.is_empty() && r.macros.is_empty());
+    assert!(side_effect_calls() == if c_active(&s, depth) { 1 } else { 0 });
+    assert!(unsafe { CALLS_PRAGMA_ONCE } == side_effect_calls());
+    std::mem::forget(res);
+    kani::cover!(c_active(&s, depth));
+    kani::cover!(!c_active(&s, depth));
+});
+
+// an unknown directive is an error only where it is read
+gating!(c11_gating_unknown_bounded, || {
+    let (res, chain, s, depth, r) = run_directive(cmd3(id("frobnicate"), ws(), id("X")), None);
+    assert!(chain_is(chain, &s, depth) && r.buffer.is_empty() && r.macros.is_empty() && side_effect_calls() == 0);
+    if c_active(&s, depth) {
+        assert!(matches!(res, Err(PreprocessError::UnknownCommand(_))));
+    } else {
+        assert!(res.is_ok());
+    }
+    std::mem::forget(res);
+    kani::cover!(c_active(&s, depth));
+    kani::cover!(!c_active(&s, depth));
+});
+
+/// the chain grew by exactly one level `top`, everything below unchanged
+fn pushed(chain: &ConditionChain, s: &[ConditionState; 2], depth: usize, top: ConditionState) -> bool {
+    chain.0.len() == depth + 1 && (depth < 1 || chain.0[0] == s[0]) && (depth < 2 || chain.0[1] == s[1]) && chain.0[depth] == top
+}
+
+// #ifdef X / #ifndef X with X defined or not: opens a group that is selected iff the enclosing text is read and the test holds;
+// inside an unselected group the test is not even looked at (the new level can never become selected: DisabledInner under a
+// disabled level stays inactive because c_active needs every level)
+gating!(c11_gating_ifdef_bounded, || {
+    let negated: bool = kani::any();
+    let defined: bool = kani::any();
+    let (res, chain, s, depth, r) = run_directive(
+        cmd3(id(if negated { "ifndef" } else { "ifdef" }), ws(), id("X")),
+        Some(if defined { "X" } else { "Y" }),
+    );
+    assert!(res.is_ok());
+    assert!(r.buffer.is_empty() && r.macros.len() == 1 && side_effect_calls() == 0);
+    let holds = if negated { !defined } else { defined };
+    let expect = if c_active(&s, depth) && holds { ConditionState::Enabled } else { ConditionState::DisabledInner };
+    assert!(pushed(chain, &s, depth, expect));
+    std::mem::forget(res);
+    kani::cover!(c_active(&s, depth) && holds);
+    kani::cover!(!c_active(&s, depth));
+});
+
+// #if c: the condition is evaluated only where the directive is read; the group is selected iff it is read and c holds
+gating!(c11_gating_if_bounded, || {
+    let c: bool = kani::any();
+    unsafe { CONDITION_VALUE = c; }
+    let (res, chain, s, depth, r) = run_directive(cmd3(tok(Token::If), ws(), id("X")), None);
+    assert!(res.is_ok());
+    assert!(r.buffer.is_empty() && r.macros.is_empty());
+    if c_active(&s, depth) {
+        assert!(unsafe { CALLS_PARSE_CONDITION } == 1 && unsafe { CALLS_APPLY_MACROS } == 1 && side_effect_calls() == 2);
+        assert!(pushed(chain, &s, depth, if c { ConditionState::Enabled } else { ConditionState::DisabledInner }));
+    } else {
+        assert!(side_effect_calls() == 0);
+        assert!(pushed(chain, &s, depth, ConditionState::DisabledInner));
+    }
+    std::mem::forget(res);
+    kani::cover!(c_active(&s, depth) && c);
+    kani::cover!(!c_active(&s, depth));
+});
+
+/// the C rule for #elif c / #else on the innermost level
+fn switched(chain: &ConditionChain, s: &[ConditionState; 2], depth: usize, c: bool) -> bool {
+    if depth == 0 || chain.0.len() != depth { return false; }
+    let l = abs(s[depth - 1]);
+    let n = abs(chain.0[depth - 1]);
+    (depth < 2 || chain.0[0] == s[0]) && n.now == (!l.taken && c) && n.taken == (l.taken || c)
+}
+
+// #elif c: unmatched -> rejected; otherwise the innermost level follows the C rule and nothing else changes
+gating!(c11_gating_elif_bounded, || {
+    let c: bool = kani::any();
+    unsafe { CONDITION_VALUE = c; }
+    let (res, chain, s, depth, r) = run_directive(cmd3(id("elif"), ws(), id("X")), None);
+    assert!(r.buffer.is_empty() && r.macros.is_empty());
+    if depth == 0 {
+        assert!(matches!(res, Err(PreprocessError::ElseNotMatched)) && chain.0.is_empty());
+    } else {
+        assert!(res.is_ok() && switched(chain, &s, depth, c));
+    }
+    std::mem::forget(res);
+    kani::cover!(depth == 2 && c);
+    kani::cover!(depth == 0);
+});
+
+// #else: as #elif 1
+gating!(c11_gating_else_bounded, || {
+    let (res, chain, s, depth, r) = run_directive(cmd1(tok(Token::Else)), None);
+    assert!(r.buffer.is_empty() && r.macros.is_empty() && side_effect_calls() == 0);
+    if depth == 0 {
+        assert!(matches!(res, Err(PreprocessError::ElseNotMatched)) && chain.0.is_empty());
+    } else {
+        assert!(res.is_ok() && switched(chain, &s, depth, true));
+    }
+    std::mem::forget(res);
+    kani::cover!(depth == 2);
+    kani::cover!(depth == 0);
+});
+
+// #endif: unmatched -> rejected; otherwise closes exactly the innermost level
+gating!(c11_gating_endif_bounded, || {
+    let (res, chain, s, depth, r) = run_directive(cmd1(id("endif")), None);
+    assert!(r.buffer.is_empty() && r.macros.is_empty() && side_effect_calls() == 0);
+    if depth == 0 {
+        assert!(matches!(res, Err(PreprocessError::EndIfNotMatched)) && chain.0.is_empty());
+    } else {
+        assert!(res.is_ok() && chain.0.len() == depth - 1 && (depth < 2 || chain.0[0] == s[0]));
+    }
+    std::mem::forget(res);
+    kani::cover!(depth == 2);
+    kani::cover!(depth == 0);
+});
+
+fn file0() -> FileId {
+    // FileId's field is private to rssl-text; it is a plain u32 newtype
+    unsafe { std::mem::transmute::<u32, FileId>(0) }
+}
